@@ -159,33 +159,38 @@ def cases(tier, seed, i, n):
                  dict(z=True, ext='permessage-deflate; client_no_context_takeover'),
                  dict(z=True, ext='permessage-deflate; client_max_window_bits=9; server_max_window_bits=9')]
         # (1) data sends: histories of calls on one connection, all length classes
+        # (thorough: the first 6 rounds here, the other 494 after the enumerated blocks below, so that a shard which
+        # runs out of time has done every block)
         reps = 6 if tier == 'quick' else 500
-        for rep in range(reps):
+        def data_histories(rep_range):
+          for rep in rep_range:
             for mode in modes:
-                for mask in (MASKS if rep < 2 else (None,)):
-                    calls = []
-                    lens = list(LENGTHS) + [rnd.randint(0, 300) for _ in range(4)]
-                    if rep % 3 == 0:
-                        lens.append(200003)
-                    rnd.shuffle(lens)
-                    for ln in lens[:rnd.randint(5, len(lens))]:
-                        api = rnd.choice(('send_text', 'send_binary', 'send_binary', 'send_json'))
-                        comp = rnd.random() < 0.7
-                        if api == 'send_text':
-                            txt = gen.text_of_len(rnd, ln).decode('utf-8') if rnd.random() < 0.6 else \
-                                text_of(rnd, min(ln, 3000), rnd.choice(('ascii', 'nul', 'latin', 'bmp', 'astral', 'edges')))
-                            calls.append(dict(name='send_text', args=[txt], kw=dict(compress=comp) if not comp or rnd.random() < 0.5 else {}))
-                        elif api == 'send_binary':
-                            pl = rnd.choice((rnd.randbytes(ln), bytes((k + ln) & 0xff for k in range(ln)),
-                                             b'\x00' * ln, b'ab' * (ln // 2) + b'a' * (ln % 2)))
-                            calls.append(dict(name='send_binary', args=[pl], kw=dict(compress=comp) if not comp or rnd.random() < 0.5 else {}))
-                        else:
-                            obj = rnd.choice(({'a': 'x' * min(ln, 500), 'n': [1, 2.5, None, True]}, ['é€😀', ln], 'plain', 17, None, {}))
-                            if rnd.random() < 0.5 or not isinstance(obj, dict):
-                                calls.append(dict(name='send_json', args=[obj]))
-                            else:
-                                calls.append(dict(name='send_json', kw=obj))
-                    yield dict(kind='hist', mode=mode, mask=mask, calls=calls)
+                  for mask in (MASKS if rep < 2 else (None,)):
+                      calls = []
+                      lens = list(LENGTHS) + [rnd.randint(0, 300) for _ in range(4)]
+                      if rep % 3 == 0:
+                          lens.append(200003)
+                      rnd.shuffle(lens)
+                      for ln in lens[:rnd.randint(5, len(lens))]:
+                          api = rnd.choice(('send_text', 'send_binary', 'send_binary', 'send_json'))
+                          comp = rnd.random() < 0.7
+                          if api == 'send_text':
+                              txt = gen.text_of_len(rnd, ln).decode('utf-8') if rnd.random() < 0.6 else \
+                                  text_of(rnd, min(ln, 3000), rnd.choice(('ascii', 'nul', 'latin', 'bmp', 'astral', 'edges')))
+                              calls.append(dict(name='send_text', args=[txt], kw=dict(compress=comp) if not comp or rnd.random() < 0.5 else {}))
+                          elif api == 'send_binary':
+                              pl = rnd.choice((rnd.randbytes(ln), bytes((k + ln) & 0xff for k in range(ln)),
+                                               b'\x00' * ln, b'ab' * (ln // 2) + b'a' * (ln % 2)))
+                              calls.append(dict(name='send_binary', args=[pl], kw=dict(compress=comp) if not comp or rnd.random() < 0.5 else {}))
+                          else:
+                              obj = rnd.choice(({'a': 'x' * min(ln, 500), 'n': [1, 2.5, None, True]}, ['é€😀', ln], 'plain', 17, None, {}))
+                              if rnd.random() < 0.5 or not isinstance(obj, dict):
+                                  calls.append(dict(name='send_json', args=[obj]))
+                              else:
+                                  calls.append(dict(name='send_json', kw=obj))
+                      yield dict(kind='hist', mode=mode, mask=mask, calls=calls)
+        for c in data_histories(range(min(reps, 6))):
+            yield c
         # (1b) the socket write of the k-th call is interrupted / fails, possibly after a partial write:
         #      the call must then raise (never return normally having written something else than one frame)
         for k in range(1, 6):
@@ -246,6 +251,8 @@ def cases(tier, seed, i, n):
         yield dict(kind='close', mode=modes[0], args=[])
         yield dict(kind='close', mode=modes[0], kw=dict(code=4000))
         yield dict(kind='close', mode=modes[0], kw=dict(reason='only-reason'))
+        for c in data_histories(range(6, reps)):
+            yield c
         extra = 40 if tier == 'quick' else 60000
         for _ in range(extra):
             yield dict(kind='close', mode=rnd.choice(modes), args=[rnd.choice((rnd.randint(0, 65535), rnd.randint(-5, 70000))),
